@@ -815,13 +815,15 @@ def state_pass(run: Run, pkg: Package, everything: bool = False) -> None:
                 fi = pkg.func(fq)
             except Exception:  # noqa
                 continue
-            group = list(fi.cls.methods.values()) if fi.cls is not None else [fi]
-            for g in group:
-                if g.qual not in seen:
-                    seen.add(g.qual)
-                    funcs.append(g)
+            if fi.qual not in seen:
+                seen.add(fi.qual)
+                funcs.append(fi)
     if not everything:
-        # helpers the analysed functions call (transitively, within the package) are part of what they compute
+        # helpers introduced later (not among the functions the rule tables were written for) that the analysed functions call,
+        # transitively, are part of what those functions compute; long-standing routines are separate units decided under the
+        # properties that anchor them
+        from ..vg import known_functions
+        known = known_functions()
         seen = {f.qual for f in funcs}
         work = list(funcs)
         while work:
@@ -829,7 +831,7 @@ def state_pass(run: Run, pkg: Package, everything: bool = False) -> None:
             for call in ast.walk(f.node):
                 if isinstance(call, ast.Call):
                     g = resolve_callee(pkg, f, call)
-                    if g is not None and g.qual not in seen and len(seen) < 400:
+                    if g is not None and g.qual not in seen and g.qual not in known and len(seen) < 400:
                         seen.add(g.qual)
                         funcs.append(g)
                         work.append(g)
